@@ -1393,8 +1393,8 @@ VARIANTS = [
       '    loop = asyncio.get_event_loop()\n    result = await loop.run_in_executor(\n        self._thread_pool, _async_get_batch, self\n    )',
       '    if not self._queue.empty():\n      result = _async_get_batch(self)\n    else:\n      loop = asyncio.get_event_loop()\n      result = await loop.run_in_executor(\n          self._thread_pool, _async_get_batch, self\n      )', 'R-C04-17'),
     B('ignore-error-swallows-end-of-stream', 'utils/iter_utils.py',
-      '          exhausted = is_stop_iteration(e)\n          if (exhausted and result) or (not exhausted and self.ignore_error):',
-      '          if self.ignore_error or (is_stop_iteration(e) and result):', 'R-C04-18'),
+      '          if (exhausted and result) or (\n              not exhausted\n              and self.ignore_error\n              and (result or e is not self._exception)\n          ):',
+      '          if self.ignore_error or (exhausted and result):', 'R-C04-18'),
     B('revert-get-nowait-wakes-producer', 'utils/iter_utils.py',
       '      with self._enqueue_lock:\n        self._enqueue_lock.notify()\n      return result\n',
       '      return result\n', 'R-C04-5'),
